@@ -1,11 +1,15 @@
-"""D15: `FileJournal.deleteEntriesTo` = `clear()` + re-`add` of every kept entry (pysyncobj/journal.py:230-234).
-A kill after the header store of clear() and before the last re-add is published leaves a journal
-that lacks entries the operation was meant to keep (C08: "the reopened journal holds a contiguous range
-of the previous entries that includes everything the interrupted operation was meant to keep"; C06:
-such entries may already be acknowledged).  Recorded finding (no small in-place repair).
+"""D15: `FileJournal.deleteEntriesTo` used to be `clear()` + re-`add` of every kept entry: a kill after the
+header store of clear() and before the last re-add was published left a journal lacking entries the
+operation was meant to keep (C08: "the reopened journal holds a contiguous range of the previous entries
+that includes everything the interrupted operation was meant to keep"; C06: such entries may already be
+acknowledged).  Repair: fixes/D15-journal-head-drop-by-atomic-replace.diff - the kept entries are written
+to `<journal>.tmp`, which then replaces the journal by one rename.
 Witness: real FileJournal with 5 entries, deleteEntriesTo(2) really killed (recorder kill plan, objects
-abandoned without _destroy/flush) after primitive 0 and after each later primitive write; the file is
-reopened with the real class.  Returns no violation when deleteEntriesTo has been made kill-safe."""
+abandoned without _destroy/flush) before every primitive write, after the last one, and inside every
+tearable one (sampled byte counts); the directory is reopened with the real class.  The reopened journal
+must be the old list or exactly old[2:].  Silent on the repaired tree; on the old code it trips with
+`journal.deleteEntriesTo:kill-between-clear-and-readd` (the recorder follows both code versions: the old
+head drop writes into the journal file itself)."""
 import os
 import shutil
 import time
@@ -19,18 +23,29 @@ PRE = [["add", i + 1, 1, {"n": 6 + i, "s": i}] for i in range(5)]
 OP = ["delto", 2]
 
 
+def t_points(L):
+    return sorted(set(t for t in (0, 1, 4, 5, 20, 21, L // 2, L - 4, L - 1) if 0 <= t < max(L, 1)))
+
+
 def scenario(jm, tmp, pre=PRE, op=OP):
-    """returns (list of (k, np, survivors, lost?) per crash point, first loss description or None)"""
+    """returns (rows per crash point, first failure (k, t, signature, text) or None, number of primitives)"""
     path = os.path.join(tmp, "d15-journal")
     lib.remove_files(path)
     real = lib.Real(jm, path)
     ref = []
     try:
         for o in pre:
-            real.apply(o)
+            if o[0] == "crashat":
+                o, _ = lib.concretise_crashat(jm, os.path.join(tmp, "d15-dry"), real, o)
+                real, _k = lib.crash_reopen(real, o[1], o[2], o[3])
+            elif o[0] == "reopen":
+                real = lib.reopen(real, o[1])
+            else:
+                real.apply(o)
             lib.ref_apply(ref, o)
         snap = lib.snapshot(path)
-        prims = real.apply(op)              # only to learn the number of primitive writes
+        pending = real.pending_ci()
+        prims = lib.dry_prims(jm, os.path.join(tmp, "d15-dry"), real, op)      # to learn the primitive writes
     finally:
         real.abandon()
         lib.remove_files(path)
@@ -39,31 +54,34 @@ def scenario(jm, tmp, pre=PRE, op=OP):
     rows, first = [], None
     kp = os.path.join(tmp, "d15-kill")
     for k in range(np_ + 1):
-        img, killed, done, exc = lib.real_kill(jm, kp, snap, None, op, k, 0)
-        if exc is not None:
-            rows.append({"k": k, "exception": repr(exc)})
-            first = first or (k, "raised %r" % (exc,))
-            lib.remove_files(kp)
-            continue
-        o = lib.open_image(jm, kp, img)
-        try:
-            if "err" in o:
-                rows.append({"k": k, "reopen": o["err"]})
-                first = first or (k, "reopen raises " + o["err"])
+        for t in (t_points(lib.prim_len(prims[k])) if k < np_ else [0]):
+            img, killed, done, exc = lib.real_kill(jm, kp, snap, pending, op, k, t)
+            if exc is not None:
+                rows.append({"k": k, "t": t, "exception": repr(exc)})
+                first = first or (k, t, "journal.deleteEntriesTo:exception:" + type(exc).__name__, "raised %r" % (exc,))
+                lib.remove_files(kp)
                 continue
-            got = o["ents"]
-            m = lib.crash_monitor(op, ref, got, o["ci"], {1})
-            # the statement, spelled out: every entry meant to be kept is still there
-            superset = all(e in got for e in keep)
-            rows.append({"k": k, "killed": killed, "after": lib.prims_str(done, jm), "survivors": len(got), "keeps_all": superset})
-            if (m is not None or not superset) and first is None:
-                first = (k, "killed after %d of %d primitive writes (%s): reopened journal holds %d entries %s, "
-                            "entries to keep were %s" % (k, np_, lib.prims_str(done, jm) if done else "none",
-                                                          len(got), lib.short_ents(got), lib.short_ents(keep)))
-        finally:
-            if "real" in o:
-                o["real"].abandon()
-            lib.remove_files(kp)
+            o = lib.open_image(jm, kp, img)
+            try:
+                if "err" in o:
+                    rows.append({"k": k, "t": t, "reopen": o["err"]})
+                    first = first or (k, t, "journal.deleteEntriesTo:reopen-raises-after-kill:" + o["err"], "reopen raises " + o["err"])
+                    continue
+                got = o["ents"]
+                m = lib.crash_monitor(op, ref, got, o["ci"], {o["ci"]})
+                ok = m is None and (got == ref or got == keep)      # the statement, spelled out once more
+                rows.append({"k": k, "t": t, "killed": killed, "after": lib.prims_str(done, jm), "survivors": len(got),
+                             "is_old_or_kept": ok, "tmp_left": img[3] is not None})
+                if not ok and first is None:
+                    sig = m[0] if m is not None else "journal.deleteEntriesTo:neither-old-nor-kept"
+                    first = (k, t, sig, "killed after %d of %d primitive writes (%s)%s: reopened journal holds %d entries %s, "
+                                        "entries to keep were %s" % (k, np_, lib.prims_str(done, jm) if done else "none",
+                                                                      " +%d bytes of the next" % t if t else "",
+                                                                      len(got), lib.short_ents(got), lib.short_ents(keep)))
+            finally:
+                if "real" in o:
+                    o["real"].abandon()
+                lib.remove_files(kp)
     return rows, first, np_
 
 
@@ -73,13 +91,16 @@ def run(ctx):
     rows, first, np_ = scenario(jm, ctx.tmpdir())
     viols = []
     if first is not None:
-        viols.append({"signature": lib.D15_SIGNATURE,
-                      "what": "FileJournal with 5 entries, deleteEntriesTo(2) " + first[1],
-                      "replay": {"witness": "d15_journal_headdrop_kill", "pre": PRE, "op": OP, "k": first[0], "t": 0}})
-    lost = [r["k"] for r in rows if not r.get("keeps_all", False)]
+        viols.append({"signature": first[2],
+                      "what": "FileJournal with 5 entries, deleteEntriesTo(2) " + first[3],
+                      "replay": {"witness": "d15_journal_headdrop_kill", "pre": PRE, "op": OP, "k": first[0], "t": first[1]}})
+    lost = sorted(set(r["k"] for r in rows if not r.get("is_old_or_kept", False)))
     return {"cases": len(rows), "distinct": len(rows), "violations": viols, "disagreements": [],
-            "samples": rows[:3],
-            "coverage": {"tripped": bool(viols), "primitives_of_op": np_, "crash_points": len(rows), "crash_points_losing_kept_entries": lost},
+            "samples": [r for r in rows if r.get("t") == 0][:3],
+            "coverage": {"tripped": bool(viols), "primitives_of_op": np_, "crash_points": len(rows),
+                         "torn_points": len([r for r in rows if r.get("t")]),
+                         "points_leaving_a_tmp_file": len([r for r in rows if r.get("tmp_left")]),
+                         "crash_points_losing_kept_entries": lost},
             "wall_s": round(time.time() - t0, 2)}
 
 
@@ -91,5 +112,5 @@ def replay(ctx, violation):
         rows, first, np_ = scenario(jm, tmp, rp.get("pre", PRE), rp.get("op", OP))
     finally:
         shutil.rmtree(tmp, ignore_errors=True)      # ./check --replay does not clean up the ctx
-    return {"violated": first is not None, "signature": lib.D15_SIGNATURE if first else None,
-            "what": first and first[1], "crash_points": rows, "tree": ctx.repo}
+    return {"violated": first is not None, "signature": first[2] if first else None,
+            "what": first and first[3], "crash_points": rows, "tree": ctx.repo}
